@@ -284,6 +284,11 @@ type Outcome struct {
 	ReplayMiss     int
 	Preempts       int
 	PreemptsInCall int
+	// ClientsAlive counts the unfinished tasks that the harness started (root tasks
+	// and tasks spawned from harness code). Tasks spawned by the code under test that
+	// are still parked at the end - a pump or janitor goroutine of the implementation -
+	// are in Alive but not here: they are not callers waiting for anything.
+	ClientsAlive int
 	Nontrivial     bool   // set by harnesses whose notion of a non-trivial case is not a preemption
 	OpsHash        uint64 // set by sequential harnesses: hash of the operation history
 }
@@ -350,6 +355,12 @@ type Config struct {
 	// possibly from several tasks (one at a time): what it writes must be fenced
 	// for the race detector by the caller. It must not block or make steps.
 	OnSend func(ch unsafe.Pointer, v any, step int64)
+	// StopWhenClientsDone ends the run as soon as every task the harness started has
+	// finished, even if tasks spawned by the code under test could still run (a
+	// janitor that sleeps in a loop would otherwise keep the run going until the
+	// step budget and be misreported as no-progress). For workloads whose oracle
+	// does not depend on what library goroutines do after the last call returned.
+	StopWhenClientsDone bool
 }
 
 // Sim is one simulated execution.
@@ -377,6 +388,7 @@ type Sim struct {
 	schedPos int
 	drawPos  int
 	runLen   int
+	nLib     int // tasks spawned by the code under test
 	enBuf    []*stask
 }
 
@@ -481,7 +493,22 @@ func (s *Sim) newSTask(tk *task, gate chan resume, site string) *stask {
 		}
 	}
 	s.tasks = append(s.tasks, t)
+	if !isClientSite(site) {
+		s.nLib++
+	}
 	return t
+}
+
+func isClientSite(site string) bool { return site == "root" || strings.HasPrefix(site, "verif/") }
+
+// clientsDone reports whether every task started by the harness has finished.
+func (s *Sim) clientsDone() bool {
+	for _, t := range s.tasks {
+		if t.state != stDone && isClientSite(t.spawnSite) {
+			return false
+		}
+	}
+	return true
 }
 
 func (s *Sim) obj(p unsafe.Pointer, k objKind) *object {
@@ -662,6 +689,10 @@ func (s *Sim) Run() *Outcome {
 			s.out.Truncated = true
 			break
 		}
+		if s.cfg.StopWhenClientsDone && s.nLib > 0 && s.clientsDone() {
+			s.count("probe.run_ended_with_library_goroutines_alive", 1)
+			break
+		}
 		en := s.enabled()
 		if len(en) == 0 {
 			if !s.advanceClock() {
@@ -695,6 +726,9 @@ func (s *Sim) Run() *Outcome {
 	for _, t := range s.tasks {
 		if t.state != stDone {
 			s.out.Alive = append(s.out.Alive, AliveTask{t.id, t.spawnSite, t.req.kind.String(), t.parkedOn})
+			if isClientSite(t.spawnSite) {
+				s.out.ClientsAlive++
+			}
 		}
 	}
 	// unwind whatever is left
